@@ -281,7 +281,7 @@ def build3 (P : Prims) (c : Cfg3) (t : Tape3) (order : List F3) (ep : Bytes) (pa
     compression on or off, any inner cipher id, any round count below 2^64), every draw of the seeds / IV / keys,
     every order of the header fields with comment fields anywhere, every end-of-header payload, every partition of
     the (possibly compressed) document into non-empty hashed blocks, the reader returns exactly the stored
-    configuration, the inner key SHA-256(stream key) and the document. -/
+    configuration, the stream key and the document. -/
 theorem C02_kdbx3_framing (P : Prims) (L : P.Laws) (c : Cfg3) (t : Tape3) (order : List F3) (ep : Bytes)
     (parts : List Bytes) (xml composite file : Bytes)
     (H : Header3Ok c t order ep)
@@ -289,7 +289,7 @@ theorem C02_kdbx3_framing (P : Prims) (L : P.Laws) (c : Cfg3) (t : Tape3) (order
     (hdata : parts.flatten = (if c.compression then P.gzip xml else xml))
     (hfile : build3 P c t order ep parts composite = some file) :
     decrypt3 P file (some composite)
-      = .ok ⟨c.minor, c.outer, c.compression, c.inner, c.rounds, P.sha256 t.streamKey, xml⟩ := by
+      = .ok ⟨c.minor, c.outer, c.compression, c.inner, c.rounds, t.streamKey, xml⟩ := by
   unfold build3 at hfile
   simp only [Option.map_eq_some_iff] at hfile
   obtain ⟨ct, hct, rfl⟩ := hfile
